@@ -5,9 +5,10 @@ A *case* describes one hierarchy:
     {"types":   [layer type, ...]            layers in an order in which parents precede children,
      "parents": [[index, ...], ...]          PARENT-REFs of every layer,
      "names":   ["a", "b"],                  the short names that are placed,
-     "place":   [[0|1|2 per name], ...]      per layer: 0 absent, 1 defined locally, 2 (diag comms / diag
+     "place":   [[0|1|2|3 per name], ...]    per layer: 0 absent, 1 defined locally, 2 (diag comms / diag
                                              variables only) referenced with DIAG-COMM-REF / DIAG-VARIABLE-REF
-                                             from the library layer,
+                                             from the library layer, 3 (unit groups only) defined locally with
+                                             content that is identical in every layer (value-equal, distinct),
      "excl":    [[child, parent, name index], ...]   NOT-INHERITED entries,
      "excl_lists": ["comms","dops","tables","gnrs","vars"]   which NOT-INHERITED-* lists carry `excl`,
      "cats":    [...]                        categories that are instantiated (see CATEGORIES)}
@@ -53,6 +54,10 @@ FULL_CATS = list(CATEGORIES)
 ALL_CATS = [c for c in CATEGORIES if c not in EXTRA_DDDS_CATS]  # the core profile
 EXCLUDABLE_CATS = [c for c, (_, lst) in CATEGORIES.items() if lst is not None]
 REFERABLE_CATS = ["svc", "job", "var"]  # categories with a *-REF placement (kind 2)
+# categories whose objects carry no ODXLINK id, so that two layers can define value-equal but distinct objects
+# (placement kind 3): of all kinds subject to value inheritance only UNIT-GROUP is a plain named element
+EQUALABLE_CATS = ["ug"]
+EQ = "="  # "layer" part of the marker of such an object: the same text in every layer that defines it
 EXCL_LISTS = ["comms", "dops", "tables", "gnrs", "vars"]
 NO_VARS = (PROT,)  # layer types without DIAG-VARIABLES
 
@@ -109,6 +114,10 @@ def _objects(lname: str, lidx: int, ltype: str, names_: List[str], row: List[int
                 spec["svcs"].append({"ref": oid(lib_name, spec_name("job", nm))})
             if "var" in cats and ltype not in NO_VARS:
                 variables.append(X("DIAG-VARIABLE-REF", ID_REF=oid(lib_name, spec_name("var", nm))))
+            continue
+        if kind == 3:
+            if "ug" in cats:
+                unit_groups.append(X("UNIT-GROUP", names(short_name("ug", nm), marker(EQ, "ug", nm)), T("CATEGORY", "COUNTRY")))
             continue
         mk = lambda cat: marker(lname, cat, nm)  # noqa: E731
         if "fc" in cats:
